@@ -202,6 +202,27 @@ MUTANTS = [
     ("fmt-spec-precision-needs-width", "C11", "R-FMT-SPEC", "render_format_options", "crates/format/src/format.rs",
      "        result.push_str(&min_width.to_string());\n    }\n    if let Some(precision) = options.precision {\n        result.push_str(&format!(\".{precision}\"));\n    }",
      "        result.push_str(&min_width.to_string());\n        if let Some(precision) = options.precision {\n            result.push_str(&format!(\".{precision}\"));\n        }\n    }"),
+    ("barrier-comparison-op-unconditional", "C17", "R-BARRIER-FRAME", "run_overridden_comparison_op", "crates/runtime/src/vm.rs",
+     "        self.call_overridden_op_2(Some(result_register), lhs, rhs, op)?;\n        match self.get_overridden_op_result(old_frame_count, result_register)? {\n            KValue::Bool(result) => Ok(result),\n            unexpected => unexpected_type(\"Bool\", &unexpected),\n        }",
+     "        self.call_overridden_op_2(Some(result_register), lhs, rhs, op)?;\n        let _ = old_frame_count;\n        self.frame_mut().execution_barrier = true;\n        let result = self.execute_instructions();\n        if result.is_err() {\n            self.pop_frame(KValue::Null)?;\n        }\n        self.truncate_registers(result_register);\n        match result? {\n            KValue::Bool(result) => Ok(result),\n            unexpected => unexpected_type(\"Bool\", &unexpected),\n        }"),
+    ("unpack-once-count-not-reset", "C06", "R-UNPACK-ONCE", "unpack_packed_arguments", "crates/runtime/src/vm.rs",
+     "        info.packed_arg_count = 0;\n\n        Ok(())",
+     "        Ok(())"),
+    ("reg-distinct-write-op-container-twice", "C17", "R-REG-DISTINCT", "run_write_op", "crates/runtime/src/vm.rs",
+     "                self.run_index_assign(container_register, write_arg_register, write_value_register)",
+     "                self.run_index_assign(container_register, container_register, write_arg_register)"),
+    ("module-canon-file-form-returned-raw", "C18", "R-MODULE-CANON", "find_module", "crates/bytecode/src/module_loader.rs",
+     "        canonicalize(&result).map_err(|error| {\n            ModuleLoaderErrorKind::FailedToCanonicalizePath {\n                path: result,\n                error,\n            }\n            .into()\n        })\n    } else {",
+     "        Ok(result)\n    } else {"),
+    ("export-id-from-import-ignores-alias", "C18", "R-EXPORT-ID", "compile_import", "crates/bytecode/src/compiler.rs",
+     "                                let export_id = maybe_as.unwrap_or(*import_id);",
+     "                                let export_id = *import_id;"),
+    ("tc-hint-ignored-rebind-unchecked", "C16", "R-TC-HINT-SIBLING", "compile_assign_to_map_finish", "crates/bytecode/src/compiler.rs",
+     "                Node::Ignored(_, maybe_type) => {\n                    if let Some(type_hint) = maybe_type {\n                        self.compile_assert_type(\n                            target_register,\n                            *type_hint,\n                            Some(id_or_ignored),\n                            ctx,\n                        )?;\n                    }\n\n                    self.pop_register()?; // target_register",
+     "                Node::Ignored(..) => {\n                    self.pop_register()?; // target_register"),
+    ("len-then-index-separate-len", "C19", "R-LEN-THEN-INDEX", "run_index", "crates/runtime/src/vm.rs",
+     "                let data = l.data();\n                let index = self.validate_index(n, Some(data.len()))?;\n                data[index].clone()",
+     "                let index = self.validate_index(n, Some(l.len()))?;\n                l.data()[index].clone()"),
 ]
 
 
